@@ -396,3 +396,23 @@ func topLevel(s string) string {
 	}
 	return string(b)
 }
+
+// nnfAtoms pushes negation inward (De Morgan, double negation) and returns the conjuncts of e (of ¬e when neg) as
+// positive-form atoms: `!(a != 1 || f(x))` → [(a == 1), !(f(x))]. A disjunction that survives is one atom.
+func nnfAtoms(pc *pathCtx, e ast.Expr, neg bool) []string {
+	e = unparen(e)
+	switch x := e.(type) {
+	case *ast.UnaryExpr:
+		if x.Op == token.NOT {
+			return nnfAtoms(pc, x.X, !neg)
+		}
+	case *ast.BinaryExpr:
+		if (x.Op == token.LAND && !neg) || (x.Op == token.LOR && neg) {
+			return append(nnfAtoms(pc, x.X, neg), nnfAtoms(pc, x.Y, neg)...)
+		}
+	}
+	if neg {
+		return []string{positiveForm("!(" + pc.path(e) + ")")}
+	}
+	return []string{positiveForm(pc.path(e))}
+}
